@@ -68,8 +68,10 @@ class Mode:
         self.fprefix = "do_" if uid % 4 == 2 else ""
 
         def mkfn(name, params):
-            src = "def %s(self%s):\n    _rec(self, %r, dict(%s))\n" % (
-                self.fprefix + name, "".join(", " + p for p in params), name, ", ".join("%s=%s" % (p, p) for p in params))
+            # (every fourth mode declares its state arguments positional-only: "def s(self, tm, state_tm, /)")
+            src = "def %s(self%s%s):\n    _rec(self, %r, dict(%s))\n" % (
+                self.fprefix + name, "".join(", " + p for p in params), ", /" if uid % 4 == 1 else "", name,
+                ", ".join("%s=%s" % (p, p) for p in params))
             ns = {"_rec": _rec}
             exec(src, ns)
             return ns[self.fprefix + name]
@@ -102,6 +104,10 @@ class Mode:
         def initialize(self_):
             v0 = shape["var0"]
             self_.register_sd_var("v", v0 // 4 if v0 % 4 == 0 else v0 / 4.0)
+            if uid % 5 == 3 and not self.fprefix:
+                # an instance attribute that happens to carry the name of a state (a sensor, a setting ...): states are
+                # what the class defines
+                setattr(self_, shape["states"][-1], 123)
         ns = top_ns
         ns["initialize"] = initialize
         root = StatefulAutonomous
